@@ -47,14 +47,17 @@ def run(ctx):
         for name, it in api_roots(F):
             st = (it.get('self_ty') or '').lstrip('&')
             tname = st.rsplit('::', 1)[-1]
-            if tname not in SQUARE:
-                continue
-            n = SQUARE[tname]
             mname = it.get('name') or ''
             tr = (it.get('trait') or '').rsplit('::', 1)[-1]
             body = F.body(it['key'])
             if body is None:
                 continue
+            if tname in ('f32', 'f64') and tr in ('Mul', 'Div') and body['argc'] == 2:
+                # scalar * matrix: the operator impl lives on the scalar type
+                tname = tydef(F, strip_ref(F, body['locals'][2])[0]) or ''
+            if tname not in SQUARE:
+                continue
+            n = SQUARE[tname]
             argtys = body['locals'][1:1 + body['argc']]
             rty = body['locals'][0]
             kind = None
@@ -138,8 +141,10 @@ def run(ctx):
                 elif kind == 'neg':
                     exp = {k: S.neg(A[k]) for k in A}
                     for k, v in res.items():
-                        # exact sign flip: the term must be fneg(atom) (or the atom times -1)
-                        pass
+                        # exact sign flip (negation "flips entries exactly", also the sign of zero): the term must be fneg(entry)
+                        if not (v.op == 'fneg' and v.args[0].op == 'atom'):
+                            bad = 'entry (col %d,row %d) of the negation is %s, not the sign-flipped entry (0 - x loses the sign of zero)' % (k[0], k[1], tm.show(v, 0, 3)[:80])
+                            break
                 elif kind == 'transpose':
                     exp = S.transpose(A, n)
                 elif kind == 'inverse':
